@@ -160,7 +160,12 @@ func (rp *Replayer) Run(cases []ReplayCase) ([]ReplayResult, error) {
 		ovf := filepath.Join(tmp, "overlay.json")
 		os.WriteFile(ovf, ovb, 0644)
 		out := filepath.Join(tmp, "out_"+sanitize(rel)+".json")
-		cmd := exec.Command("go", "test", "-vet=off", "-count=1", "-run", "^TestZZReplay$", "-overlay", ovf, "-timeout", "300s", "./"+rel)
+		args := []string{"test", "-vet=off", "-count=1", "-run", "^TestZZReplay$", "-overlay", ovf, "-timeout", "300s"}
+		if mf, cleanup := scratchModfile(rp.Dir); mf != "" {
+			defer cleanup()
+			args = append(args, mf)
+		}
+		cmd := exec.Command("go", append(args, "./"+rel)...)
 		cmd.Dir = rp.Dir
 		cmd.Env = append(os.Environ(), "GOFLAGS=-mod=mod", "GOPROXY=off", "GOTOOLCHAIN=auto", "VERIF_REPLAY_IN="+in, "VERIF_REPLAY_OUT="+out, "GOCACHE="+goCache())
 		var buf bytes.Buffer
